@@ -147,8 +147,15 @@ extern "C" fn sink_write(buf: *const u8, len: u32, ctx: *mut c_void, written: *m
     s.max_buf = s.max_buf.max(len);
     match s.pol.step(len) {
         Err(code) => {
-            flag(if code == 4 { 4 } else { 1 });
-            code
+            // codes 1000+c / 2000+c: report failure c AFTER announcing that half / all of the
+            // buffer was taken (a short write followed by an error, as C callbacks built on
+            // fwrite + ferror do); the failure must still be reported by the call
+            let (real, frac) = if code >= 2000 { (code - 2000, 2) } else if code >= 1000 { (code - 1000, 1) } else { (code, 0) };
+            if frac != 0 {
+                unsafe { *written = if frac == 2 { len } else { len / 2 } };
+            }
+            flag(if real == 4 { 4 } else { 1 });
+            real
         }
         Ok(k) => {
             let sl = unsafe { std::slice::from_raw_parts(buf, k as usize) };
@@ -759,6 +766,44 @@ fn decline_cases(rng: &mut Rng, tier: &str, out: &mut Out) {
     }
 }
 
+/// (2c) extraction through the C interface of archives written by the RUST interface without
+/// the encryption layer (the C writer can only make compress+encrypt archives): the read and
+/// seek callbacks then see other seek patterns (e.g. from the end by a negative offset).
+fn foreign_extract_cases(rng: &mut Rng, tier: &str, out: &mut Out) {
+    let n = if tier == "thorough" { 40 } else { 8 };
+    let mut done = 0;
+    let mut k = 0;
+    while done < n {
+        let layers = if k % 2 == 0 { 0u8 } else { 2u8 };
+        k += 1;
+        let mut plan = gen_plan(rng, layers);
+        plan.names.retain(|nm| nm.len() < 300);
+        if plan.names.is_empty() || plan.pieces.iter().any(|p| p.0 >= plan.names.len()) {
+            continue;
+        }
+        let Ok(built) = crate::archive::build(rng, &plan) else { continue };
+        let mut prog = plan_prog(&plan, 0, rng.next(), 0);
+        prog.ops = vec![vec![3, 0], vec![11, 0, 0]];
+        prog.xsrc = built.bytes.clone();
+        prog.xc = default_xc((done % 3) as u64);
+        let res = run_child(&prog);
+        let oracle = (|| {
+            if let Some(bad) = res.rows.iter().position(|x| x[0] != ST_OK) {
+                return Err(format!("C extraction of a Rust-made archive (layers {layers}): call {bad} returned status {:#x}", res.rows[bad][0]));
+            }
+            let mut exp: Vec<(Vec<u8>, Vec<u8>)> = plan.names.iter().cloned().zip(built.contents.iter().cloned()).collect();
+            exp.sort();
+            if res.files != exp {
+                return Err(format!("C extraction of a Rust-made archive (layers {layers}) delivered {} files; names or bytes differ from what was written ({} files)", res.files.len(), exp.len()));
+            }
+            Ok(())
+        })();
+        emit(out, format!("c20-foreign-{done}"), &format!("extract-rust-made layers={layers}"), &prog, &res, oracle, false,
+             json!({"layers": layers, "files": plan.names.len(), "archive_len": built.bytes.len()}), None);
+        done += 1;
+    }
+}
+
 /// A small fixed plan used by the misuse and failure sweeps.
 fn small_plan(rng: &mut Rng) -> Plan {
     Plan {
@@ -909,6 +954,18 @@ fn failure_cases(rng: &mut Rng, tier: &str, out: &mut Out) {
                      json!({"k": k, "persistent": persistent, "mode": mode, "free_calls": ncalls}), if swallowed { Some("K20-FINISH") } else { None });
             }
         }
+        // the failing invocation announces progress (half / all of the buffer) and then fails
+        for &k in ks.iter().filter(|k| **k % 3 == 1) {
+            for code in [1005u64, 2005] {
+                let mut prog = base.clone();
+                prog.ops.truncate(close_at + 1);
+                prog.sink = vec![mode, 11, k, 0, code, 0];
+                let res = run_child(&prog);
+                let oracle = oracle_cb_failure(&res);
+                emit(out, format!("c20-wfailp-m{mode}-k{k}-c{code}"), "write-callback-fails-after-progress", &prog, &res, oracle, false,
+                     json!({"k": k, "code": code, "mode": mode}), None);
+            }
+        }
         // EINTR (code 4): std::io::Write::write_all retries, so the failure is not reported
         for &k in &[1u64, 3, ncalls.max(1)] {
             let mut prog = base.clone();
@@ -960,6 +1017,7 @@ pub fn c20_cases(rng: &mut Rng, tier: &str, out: &mut Out) {
     misuse_cases(rng, tier, out);
     roundtrip_cases(rng, tier, out);
     decline_cases(rng, tier, out);
+    foreign_extract_cases(rng, tier, out);
     failure_cases(rng, tier, out);
     random_cases(rng, tier, out);
 }
